@@ -269,8 +269,18 @@ package utils
 //@     invariant[C01:fetch-ids-kept] len(values(proxyReq.Header, "X-Inverting-Proxy-Backend-ID")) == 1 && values(proxyReq.Header, "X-Inverting-Proxy-Backend-ID")[0] == backendID
 //@     |   && len(values(proxyReq.Header, "X-Inverting-Proxy-Request-ID")) == 1 && values(proxyReq.Header, "X-Inverting-Proxy-Request-ID")[0] == requestID
 
-//@ func parseRequestFromProxyResponse props(C01,C09,C07)
+//@ func parseRequestFromProxyResponse props(C01,C02,C09,C07)
 //@   requires proxyResp != nil && proxyResp.Header != nil && proxyResp.Body != nil
+// the forwarded request (whose body is read lazily, later, by the backend round trip) is parsed from a buffered reader
+// created for this fetch alone, over this fetch's response body
+//@   ghost br *bufio.Reader = nil
+//@   ghost parses int = 0
+//@   call bufio.NewReader
+//@     assert[C02:reader-over-this-fetchs-body] br == nil && arg0 == proxyResp.Body
+//@     do br = ret0
+//@   call http.ReadRequest
+//@     assert[C02:request-parsed-from-a-reader-of-its-own] parses == 0 && br != nil && arg0 == br && !allocated0(br)
+//@     do parses = parses + 1
 //@   ensures[C01:ids-recorded] r1 == nil ==> r0 != nil && r0.BackendID == backendID && r0.RequestID == requestID && r0.Contents != nil && r0.Contents.Header != nil
 //@   ensures[C09:user-is-the-proxy-asserted-one] r1 == nil ==> r0.User == old(hget(proxyResp.Header, "X-Inverting-Proxy-User-ID"))
 //@   ensures[C07:nil-on-error] r1 != nil ==> r0 == nil
